@@ -1,6 +1,7 @@
 import AvroModel.Theorems.C03
 import AvroModel.Theorems.C03layouts
 import AvroModel.Theorems.C03typed
+import AvroModel.Theorems.C03typedAccepts
 /-
 C03 — decoder conformance, all parts together:
 * `Theorems/C03.lean`: the varint level (what the slice and reader varint decoders accept is what
